@@ -279,6 +279,11 @@ fn classify(c: &OptCase, config: &str, kind: &str, msg: &str, out: Option<&Logic
         if type_error && relocated_predicate(p) {
             return Some("relocated-predicate-type-error");
         }
+        // UNION ALL keeps each branch's own integer width; whether the consumer above it has to
+        // concatenate an Int32 with an Int64 batch depends on the join order the rule picked
+        if (err.contains("concatenate arrays of different data types (Int64, Int32)") || err.contains("concatenate arrays of different data types (Int32, Int64)")) && format!("{}", p).contains("Union") {
+            return Some("union-branch-integer-width");
+        }
         // the integer SUM x CAST(__ea_cnt AS Float64) defect of EagerAggregation (see C03)
         if err.contains("expected Int64 but found Float64") && pt.contains("__ea_cnt") {
             return Some("eager-aggregation-int-sum-float-count");
